@@ -43,7 +43,7 @@ type c14Wire struct {
 	payload int // payload bytes of the current frame still to come
 	types   [16]int
 	maxData int
-	trace   []byte // frame type sequence, runs capped
+	trace   []byte // frame type sequence (D DATA, H HEADERS, P PRIORITY, R RST_STREAM, S SETTINGS, U PUSH_PROMISE, N PING, G GOAWAY, W WINDOW_UPDATE, C CONTINUATION; '+' = repeated)
 	lastT   byte
 	lastRun int
 }
@@ -83,7 +83,7 @@ func (s *c14Wire) feed(p []byte) {
 				}
 			} else {
 				s.lastT, s.lastRun = t, 1
-				s.trace = append(s.trace, "DHPRSUGWCOXXXXXXX"[min(int(t), 16)])
+				s.trace = append(s.trace, "DHPRSUNGWCxxxxxxx"[min(int(t), 16)])
 			}
 		}
 	}
@@ -330,10 +330,19 @@ func c14Invalid(x *c14Case) string {
 	if x.CWin > 0 && x.ResBody > 0 && x.ResBody/x.CWin > 4000 {
 		return "cost: response body needs more than 4000 window refills"
 	}
+	if x.ReqChunk > 0 && x.ReqBody/x.ReqChunk > 4000 {
+		return "cost: request body delivered in more than 4000 Reads"
+	}
+	if x.ResChunk > 0 && x.ResBody/x.ResChunk > 4000 {
+		return "cost: response body written in more than 4000 Writes"
+	}
 	if x.Status == 204 || x.Status == 304 {
 		if x.ResBody > 0 || x.ResTrl != 0 || x.ResDecl {
 			return "204/304 carry no content"
 		}
+	}
+	if x.Order == 1 && x.Method == "HEAD" {
+		return "a HEAD response is complete once its header block is flushed; the server then aborts the rest of the request (RFC 9113 8.1), so such handlers read the request first"
 	}
 	if x.Order == 1 && x.Status > 299 {
 		return "the Transport stops sending the request body on a status > 299 (documented heuristic); such handlers read the request first"
@@ -421,7 +430,33 @@ func c14Run(w *vx.W, x c14Case) (st c14Stats, completed bool) {
 	return
 }
 
-func c14Exchange(w *vx.W, x *c14Case) (st c14Stats, completed bool) {
+// c14Situation names abstract situations in which every failure of the
+// exchange has one root cause, so that it is reported under one signature
+// whatever clause trips first (which depends on timing).
+func c14Situation(x *c14Case) string {
+	if x.Early && x.SWin < 65535 && x.ReqBody > int(x.SWin) {
+		// the client may send up to 65535 bytes per stream until it has
+		// received the server's smaller SETTINGS_INITIAL_WINDOW_SIZE
+		return "request-data-sent-before-server-settings-exceeds-advertised-smaller-window"
+	}
+	return ""
+}
+
+type c14Failer struct {
+	w *vx.W
+	x *c14Case
+}
+
+func (f c14Failer) Failf(sig, format string, a ...any) {
+	if sit := c14Situation(f.x); sit != "" {
+		f.w.Failf("C14/exchange-fails/"+sit, "["+sig+"] "+format, a...)
+		return
+	}
+	f.w.Failf(sig, format, a...)
+}
+
+func c14Exchange(vw *vx.W, x *c14Case) (st c14Stats, completed bool) {
+	w := c14Failer{vw, x}
 	c2s, s2c := c14NewHalf(true), c14NewHalf(false)
 	for _, s := range x.Short {
 		h := c2s
@@ -763,9 +798,6 @@ func c14Exchange(w *vx.W, x *c14Case) (st c14Stats, completed bool) {
 	}
 	if d := c14DiffHeader(wantRes, gotRes); d != "" {
 		w.Failf("C14/response/header-fields", "response header fields differ (set %d): %s", x.ResHdr, d)
-	}
-	if seen.writeErr != nil {
-		w.Failf("C14/response/handler-write-error", "ResponseWriter.Write failed: %v; %s", seen.writeErr, ctxt())
 	}
 	if cr1.bodyErr != nil {
 		w.Failf("C14/response/body-read-error", "client's read of the response body failed after %d of %d bytes: %v; %s", len(cr1.body), len(wantBody), cr1.bodyErr, ctxt())
